@@ -15,7 +15,8 @@ def emit(out, tier):
     if r.violated:
         out.violation("spec:%s" % r.violated, "Process.tla violates %s" % r.violated, r.out[-3000:])
     for cfg, what in (("MC_ProcessBroken.cfg", "a read before SetGlobals"), ("MC_ProcessBrokenOpt.cfg", "a correction applied to the caller's options"),
-                      ("MC_ProcessBrokenTab.cfg", "an override written into a shared table")):
+                      ("MC_ProcessBrokenTab.cfg", "an override written into a shared table"),
+                      ("MC_ProcessBrokenHor.cfg", "a simulation's own horizon replacing the settings' default")):
         rb = C.run_tlc("MC_Process", cfg=cfg, workers=4, timeout=1200)
         out.tlc_runs.append(dict(name=cfg[:-4] + " (must be refuted)", **rb.summary()))
         if not rb.violated:
@@ -40,6 +41,7 @@ def run_types():
     return {
         "r_alb_kf": dict(cc="ALB", preset="known_to_fail_for_ALB", options=kf),
         "r_arg_kf": dict(cc="ARG", preset="known_to_fail_for_ALB", options=kf),
+        "r_arg_own48": dict(cc="ARG", preset="net_baseline_own_horizon_48", options=dict(P["net_baseline"], NMONTHS=48)),
         "r_arg_herd": dict(cc="ARG", preset="net_baseline_custom_herd", options=dict(P["net_baseline"], meat_cattle_head=5000000, pig_head=100000)),
         "r_arg_base": dict(cc="ARG", preset="net_baseline", options=P["net_baseline"]),
         "r_usa_nw": dict(cc="USA", preset="net_nuclear_winter", options=dict(P["net_nuclear_winter"], NMONTHS=84)),
@@ -47,6 +49,9 @@ def run_types():
         "r_wor": dict(cc="WOR", preset="ms_worst", options=presets.to_global(P["ms_worst"])),
         "r_bad": dict(cc="ARG", preset="bad_option", options=bad),
     }
+
+
+YAML_NMONTHS = 120
 
 
 def digest(rec, joined=False):
@@ -61,7 +66,7 @@ def run_c14(pid, tier):
                 "failing one; thorough: length <= 3) are each executed in one fresh process; every run's full observation (headline, "
                 "all monthly series, LP values, herd trajectories, hand-offs) is compared bit for bit with the same run alone in a fresh process")
     cases = [c for c in emit(out, tier) if c["k"] == "History"]
-    hists = sorted({tuple((r, bool(j)) for r, j in zip(c["h"], c["joined"])) for c in cases})
+    hists = sorted({tuple((r, j) for r, j in zip(c["h"], c["joined"])) for c in cases})
     if not hists:
         out.machinery.append("no histories emitted")
         return out.finish()
@@ -76,10 +81,18 @@ def run_c14(pid, tier):
         jobs = []
         targets[h] = []
         for k, (r, j) in enumerate(h):
+            nxt = h[k + 1][1] if k + 1 < len(h) else None
+            if j in ("yamlfirst", "yamlnext"):
+                # the simulations of one yaml front-end call: one job, one record per simulation
+                if j == "yamlfirst":
+                    jobs.append(dict(cc=RT[r]["cc"], preset="yaml_call", options={}, yaml=dict(NMONTHS=YAML_NMONTHS, sims=[])))
+                jobs[-1]["yaml"]["sims"].append(dict(name="sim%d_%s" % (k, r), preset=RT[r]["preset"], options=RT[r]["options"]))
+                targets[h].append((k, r, j))
+                continue
             job = dict(RT[r])
-            if k + 1 < len(h) and h[k + 1][1]:
+            if nxt == "country":
                 continue  # executed inside the next job's call
-            if j:
+            if j == "country":
                 job["with"] = [RT[h[k - 1][0]]["cc"]]
             jobs.append(job)
             targets[h].append((k, r, j))
@@ -109,11 +122,16 @@ def run_c14(pid, tier):
                                          stdout=subprocess.DEVNULL, stderr=subprocess.DEVNULL), h, of))
     while running:
         reap(True)
+    # the reference of a run: the same run alone in a fresh process, called in the same form (a yaml call imposes the settings'
+    # horizon, so there the reference is the yaml call with that one simulation)
     solo = {}
     for r in RT:
-        if ((r, False),) in outs:
-            rec0 = outs[((r, False),)][0]
-            solo[r] = (digest(rec0), digest(rec0, joined=True))
+        if ((r, "direct"),) in outs:
+            rec0 = outs[((r, "direct"),)][0]
+            solo[(r, "direct")] = digest(rec0)
+            solo[(r, "country")] = digest(rec0, joined=True)
+        if ((r, "yamlfirst"),) in outs:
+            solo[(r, "yaml")] = digest(outs[((r, "yamlfirst"),)][0], joined=True)
     nruns = 0
     for h, recs in sorted(outs.items()):
         names = [r for r, _ in h]
@@ -122,15 +140,25 @@ def run_c14(pid, tier):
             if rec.get("recorder_error"):
                 out.machinery.append("recorder: " + rec["recorder_error"])
                 continue
-            dg, d = digest(rec, joined=j)
-            if r in solo and dg != solo[r][1 if j else 0][0]:
-                ref = solo[r][1 if j else 0][1]
-                diff = [k for k in d if json.dumps(d[k], sort_keys=True) != json.dumps(ref.get(k), sort_keys=True)]
-                out.violation("HistoryIndependent:%s-after-%s%s" % (r, "+".join(names[:i]) or "nothing", ":same-call" if j else ""),
-                              "run %s at position %d of history %s%s differs from the same run alone in: %s"
-                              % (r, i + 1, names, " (in the same by-country call as its predecessor)" if j else "", diff[:6]),
+            if rec.get("skipped"):
+                continue  # not run because an earlier simulation of the same yaml call failed
+            form = "yaml" if j.startswith("yaml") else j
+            dg, d = digest(rec, joined=form != "direct")
+            ref = solo.get((r, form))
+            if ref is not None and dg != ref[0]:
+                diff = [k for k in d if json.dumps(d[k], sort_keys=True) != json.dumps(ref[1].get(k), sort_keys=True)]
+                out.violation("HistoryIndependent:%s-after-%s%s" % (r, "+".join(names[:i]) or "nothing", {"country": ":same-call", "yaml": ":yaml-call"}.get(form, "")),
+                              "run %s at position %d of history %s (%s) differs from the same run alone in: %s"
+                              % (r, i + 1, names, [x[1] for x in h], diff[:6]),
                               dict(history=[list(x) for x in h], position=i, differing_fields=diff))
         out.distinct.add(h)
+    # by design a yaml call imposes the settings' horizon on every simulation: a simulation that names its own horizon gives the
+    # result of the settings' horizon (r_arg_own48 through the front end = r_arg_base through the front end)
+    if ("r_arg_own48", "yaml") in solo and ("r_arg_base", "yaml") in solo:
+        a, b = solo[("r_arg_own48", "yaml")][1], solo[("r_arg_base", "yaml")][1]
+        if json.dumps(a.get("lps"), sort_keys=True) != json.dumps(b.get("lps"), sort_keys=True):
+            out.violation("SettingsHorizonWins:yaml-call", "a simulation with its own NMONTHS run through the yaml front end differs from the same "
+                          "simulation without it (the settings' horizon is documented to apply to every simulation)", dict(run="r_arg_own48"))
     expected_fail = [h for h, recs in outs.items() for (i, r, j), rec in zip(targets[h], recs) if r == "r_bad" and rec.get("ok")]
     if expected_fail:
         out.machinery.append("the failing run type unexpectedly succeeded")
